@@ -57,12 +57,14 @@ func setSize(frame []byte, n uint32) { binary.LittleEndian.PutUint32(frame, n) }
 // genFrame builds one frame: valid, structurally mutated, or noise.
 func genFrame(rt *rapid.T) streamItem {
 	types := refcodec.Types()
+	var baseMsg *refcodec.Msg
 	base := func() []byte {
 		typ := rapid.SampledFrom(types).Draw(rt, "type")
 		if typ == refcodec.Tversion {
 			typ = refcodec.Tclunk // never renegotiate in mid-stream
 		}
 		m := genMsgOfType(rt, typ)
+		baseMsg = m
 		// keep frames well inside msize
 		for k, v := range m.F {
 			switch x := v.(type) {
@@ -96,7 +98,9 @@ func genFrame(rt *rapid.T) streamItem {
 	}
 	f := base()
 	if len(f) > c02Msize-100 {
-		f = refcodec.Encode(tClunk(1))
+		baseMsg = tClunk(1)
+		baseMsg.Tag = 0
+		f = refcodec.Encode(baseMsg)
 	}
 	switch rapid.IntRange(0, 12).Draw(rt, "mut") {
 	case 0, 1, 2:
@@ -109,6 +113,53 @@ func genFrame(rt *rapid.T) streamItem {
 		}
 		return streamItem{f, "truncated-body"}
 	case 4: // inflate a 16-bit or 32-bit count/length somewhere in the body
+		if cfs := refcodec.CountFields(baseMsg); len(cfs) > 0 && rapid.IntRange(0, 2).Draw(rt, "aimed") != 0 {
+			// aimed at a real count field: off by one, extremes, and values whose
+			// product with the element size wraps around 2^16 / 2^32 to something
+			// that fits in the rest of the frame
+			cf := rapid.SampledFrom(cfs).Draw(rt, "cf")
+			var cur uint64
+			if cf.Width == 2 {
+				cur = uint64(binary.LittleEndian.Uint16(f[cf.Offset:]))
+			} else {
+				cur = uint64(binary.LittleEndian.Uint32(f[cf.Offset:]))
+			}
+			max := uint64(1)<<(8*cf.Width) - 1
+			cands := []uint64{cur + 1, cur + 2, max, max - 1, max/2 + 1, max / 2, uint64(cf.Rest) + 1}
+			if cur > 0 {
+				cands = append(cands, cur-1, 0)
+			}
+			elems := []int{cf.Elem}
+			if cf.Elem == 1 {
+				elems = []int{2, 13, 24}
+			} else if cf.Elem == 2 {
+				elems = []int{2, 3, 4}
+			}
+			for _, el := range elems {
+				for _, mod := range []uint64{1 << 16, 1 << 32} {
+					for k := uint64(1); k <= 3 && k < uint64(el)+1; k++ {
+						r := uint64(rapid.IntRange(0, cf.Rest).Draw(rt, "wrapr"))
+						n := (mod*k + r + uint64(el) - 1) / uint64(el)
+						if n <= max {
+							cands = append(cands, n)
+						}
+					}
+				}
+			}
+			v := rapid.SampledFrom(cands).Draw(rt, "cval")
+			if v > max {
+				v = max
+			}
+			if cf.Width == 2 {
+				binary.LittleEndian.PutUint16(f[cf.Offset:], uint16(v))
+			} else {
+				binary.LittleEndian.PutUint32(f[cf.Offset:], uint32(v))
+			}
+			if f[4] == refcodec.Tversion {
+				f[4] = 99
+			}
+			return streamItem{f, "aimed-count"}
+		}
 		if len(f) > 9 {
 			i := rapid.IntRange(7, len(f)-2).Draw(rt, "pos")
 			v := rapid.SampledFrom([]uint16{0xffff, 0x8000, 0x7fff, 0x0100, 17}).Draw(rt, "val")
